@@ -277,7 +277,9 @@ def _gen_api(rng):
         d["prune"] = rng.random() < 0.3
         dims.append(d)
     # the order transform of the sorted axis
-    stale = (max([i for i in sids if isinstance(i, int)] + [0]) + 7) if not sv.is_arr else "zz9"
+    # array dimensions: a negative number is neither an element id nor a zero-based position (round 5: it must not
+    # wrap around to an item counted from the end)
+    stale = (max([i for i in sids if isinstance(i, int)] + [0]) + 7) if not sv.is_arr else rng.choice(["zz9", "zz9", -1, "-1", -3])
     pool = sids + [stale]
     fixed = {}
     if rng.random() < 0.5:
@@ -313,7 +315,7 @@ def _gen_api(rng):
             it = rng.choice(ad.var.items)
             return rng.choice([it["alias"], it["alias"], it["id"], it["subvar_id"]])
         if t == "opposing_element":
-            ostale = (max([i for i in oids if isinstance(i, int)] + [0]) + 7) if not ov.is_arr else "zz9"
+            ostale = (max([i for i in oids if isinstance(i, int)] + [0]) + 7) if not ov.is_arr else rng.choice(["zz9", "zz9", -1, "-1", -3])
             if ov.is_arr:
                 order["element_id"] = spell(ov) if rng.random() < 0.85 else ostale
             else:
